@@ -281,6 +281,10 @@ class EvoWorklist(BaseWorklist):
         assert (
             len(set(lengths)) == 1
         ), f"Number of source/destination/volumes must be equal. They were {lengths}"
+        for labware, wells in ((source, source_wells), (destination, destination_wells)):
+            unknown = [w for w in wells if not w in labware.indices]
+            if unknown:
+                raise KeyError(f"Unknown well IDs for {labware.name}: {unknown}")
 
         # automatic partitioning
         partition_by = optimize_partition_by(source, destination, partition_by, label)
